@@ -56,6 +56,49 @@ def v2_structure(doc):
     return None
 
 
+def read_quote(q, signed, order):
+    """Read a reported sgx_quote object in the given order of accesses and compare every reading with
+    an independent parse of the signed bytes (unsigned little-endian integers, byte arrays as bytes
+    through attributes and as hex through to_dict).  -> None or the failing clause."""
+    want_typed = R.quote_fields(signed)
+    want_hex = R.quote_dict(signed)
+
+    def attrs(obj, want, path):
+        for k, v in want.items():
+            got = getattr(obj, k)
+            if isinstance(v, dict):
+                r = attrs(got, v, path + k + ".")
+                if r:
+                    return r
+            elif type(got) is not type(v) or got != v:
+                return "value:field:" + path + k
+        return None
+
+    try:
+        for i, step in enumerate(order):
+            if step == "attrs":
+                r = attrs(q, want_typed, "")
+                if r:
+                    return r + (":after-" + "-".join(order[:i]) if i else "")
+            elif step == "dict":
+                got = q.to_dict()
+                if got != want_hex:
+                    diff = [k for k in want_hex if got.get(k) != want_hex[k]] if isinstance(got, dict) else ["?"]
+                    if diff == ["report_body"] and isinstance(got.get("report_body"), dict):
+                        rb = want_hex["report_body"]
+                        diff = ["report_body." + k for k in rb if got["report_body"].get(k) != rb[k]]
+                    return "value:to_dict:%s" % "+".join(diff[:2]) + (":after-" + "-".join(order[:i]) if i else "")
+            elif step == "repr":
+                if not isinstance(repr(q), str):
+                    return "value:repr"
+            elif step == "raw":
+                if bytes(q.get_raw_data()) != signed:
+                    return "value:raw-data"
+    except Exception as e:   # noqa
+        return "value:reading-raises:%s:%s" % (type(e).__name__, "-".join(order))
+    return None
+
+
 CHAINS = [(d, n) for d in (1, 2, 3) for n in ("wide-top", "narrow-top")]
 FLIP_CHUNKS = 4
 
@@ -79,7 +122,11 @@ class C07(Check):
             "(h) element kinds chained out of order, other key encodings, over/under-long messages; "
             "(i) two quotes whose chains share the first 0..all elements, one own or shared non-leaf "
             "element of the second expired / not yet valid / signed by a stranger / bit-flipped, or its "
-            "quote corrupted, or nothing, with the target lists [a, b], [b, a], [a, b, a], [b, a, b], [a], [b]. "
+            "quote corrupted, or nothing, with the target lists [a, b], [b, a], [a, b, a], [b, a, b], [a], [b]; "
+            "(j) boundary values (0, 1, 2^(w-1)-1, 2^(w-1), 2^w-1) in all / each integer field of the signed "
+            "quote. Every reported quote is read through attributes, to_dict, repr and get_raw_data in "
+            "several orders (on one object and on fresh ones) and each reading compared, value and type, "
+            "with an independent unsigned little-endian parse of the signed bytes. "
             "An execution is distinct by (part, corrupted element and field, verdict, failing element).")
     assumptions = [
         "key and payload bytes are seeded; ECDSA signatures are deterministic (RFC 6979 via OpenSSL); "
@@ -248,6 +295,8 @@ class C07(Check):
                 cs.append({"kind": "curves", "depth": d, "level": lvl})
             cs.append({"kind": "roots", "depth": d})
         cs.append({"kind": "kinds"})
+        for b in range(5):
+            cs.append({"kind": "ints", "boundary": b})
         for d in (1, 2, 3):
             for share in range(d + 2):
                 cs.append({"kind": "multi", "depth": d, "share": share})
@@ -481,6 +530,25 @@ class C07(Check):
                 self.evaluate(doc, G.pem_of(base64.b64decode(e["message"])), G.T0, "root:is-an-element",
                               stats, vs)
 
+    # ---- (j) boundary values in every integer field of the signed quote ------------------------------
+    def run_ints(self, case, stats, vs):
+        """Per width w: 0, 1, 2^(w-1)-1, 2^(w-1), 2^w-1; in all integer fields at once and in one
+        field at a time (the others keep their distinct values); the reported fields must be the
+        unsigned little-endian reading of the signed bytes."""
+        w = self.world
+        b = case["boundary"]
+
+        def val(width):
+            bits = 8 * width
+            return [0, 1, (1 << (bits - 1)) - 1, 1 << (bits - 1), (1 << bits) - 1][b]
+        doc, root_pem, _ = self.chain(2, "wide-top")
+        plans = [{spec: val(spec[1]) for spec in R.QUOTE_INT_FIELDS.values()}]
+        plans += [{spec: val(spec[1])} for spec in R.QUOTE_INT_FIELDS.values()]
+        for ints in plans:
+            d = G.clone(doc)
+            d["elements"][0] = w.quote_element("quote", "attestation", "attkey", ints=ints)
+            self.genuine(d, root_pem, G.T0, "ints:all" if len(ints) > 1 else "ints:one", stats, vs)
+
     # ---- (i) several targets: each verdict is independent of the others -----------------------
     def run_multi(self, case, stats, vs):
         """Branch `old` (old_quote) shares the first `share` elements of the main chain
@@ -704,7 +772,7 @@ class C07(Check):
                 self.evaluate(d, root_pem, G.T0, "sig:padded-der", stats, vs)
 
     # ---- one execution -----------------------------------------------------------------------
-    def mismatch(self, doc, exp, got):
+    def mismatch(self, doc, exp, got, fresh=None):
         out = []
         if not isinstance(got, dict) or set(got) != set(doc["targets"]):
             return [("targets", None)]
@@ -716,16 +784,29 @@ class C07(Check):
                 if not (isinstance(g, tuple) and g[0] is True):
                     out.append(("rejected-valid", t))
                     continue
-                val = g[1]
-                try:
-                    same = (len(g) == 3 and g[2] is None and val["message"] == ev[1]["message"]
-                            and val["sgx_quote"].to_dict() == ev[1]["sgx_quote"]
-                            and bytes(val["sgx_quote"].get_raw_data())
-                            == bytes.fromhex(G.element_of(doc, t)["message"])[:R.QUOTE_LEN])
-                except Exception:   # noqa
-                    same = False
-                if not same:
-                    out.append(("value", t))
+                signed = bytes.fromhex(G.element_of(doc, t)["message"])[:R.QUOTE_LEN]
+                bad = None
+                if not (len(g) == 3 and g[2] is None and isinstance(g[1], dict)
+                        and g[1].get("message") == ev[1]["message"]):
+                    bad = "value"
+                else:
+                    # one reported object read in a sequence, then fresh objects read in other orders
+                    bad = read_quote(g[1].get("sgx_quote"), signed,
+                                     ("attrs", "dict", "attrs", "raw", "dict", "repr", "attrs", "dict"))
+                    if bad is None and fresh is not None:
+                        for order in (("dict", "attrs", "dict"), ("repr", "attrs", "dict"),
+                                      ("dict", "dict", "attrs"), ("raw", "repr", "dict", "attrs")):
+                            r2 = fresh()
+                            try:
+                                q2 = r2[1][t][1]["sgx_quote"]
+                            except Exception:   # noqa
+                                bad = "value-not-reproducible"
+                                break
+                            bad = read_quote(q2, signed, order)
+                            if bad is not None:
+                                break
+                if bad is not None:
+                    out.append((bad, t))
             else:
                 if isinstance(g, tuple) and g[0] is True:
                     out.append(("accepted-invalid", t))
@@ -776,7 +857,11 @@ class C07(Check):
                                 case, None, {"outcome": got[0], "error": repr(got[1])},
                                 {"verdict": ev[:2]}, "outcome"))
             return exp
-        for clause, t in self.mismatch(doc, exp, got[1]):
+        fresh = None
+        if label.startswith(("genuine", "ints", "multi:both-genuine")):
+            def fresh():
+                return self.impl.run_v2(doc, root_pem, now)
+        for clause, t in self.mismatch(doc, exp, got[1], fresh):
             et = exp.get(t, ev)
             fk = kinds.get(et[1], "") if et[0] == R.FAIL else ""
             vs.append(Violation("C07", "C07:%s:%s:%s" % (clause, label, fk), case, None,
